@@ -540,3 +540,489 @@ Proof.
   pose proof (stopWriting_fr true y) as F. destruct (stopWriting true y); cbn [st_of] in F;
     [eapply fr_Inv; eauto|eapply fr_InvW; [exact F|apply Hr]].
 Qed.
+
+(* functions that leave the head, the parsing stage and the reply's section list alone *)
+Definition keeps (x y : xs) : Prop :=
+  ad_header (ad y) = ad_header (ad x) /\ parsing (st y) = parsing (st x) /\ icap_h (io y) = icap_h (io x).
+Lemma fr_keeps x y : fr x y -> keeps x y.
+Proof. intros (Fa & _ & _ & _ & Fp & _ & _ & _ & _ & Fh & _). unfold keeps. rewrite Fa. auto. Qed.
+Lemma keeps_trans x y z : keeps x y -> keeps y z -> keeps x z.
+Proof. unfold keeps; intuition congruence. Qed.
+Lemma keeps_Inv x y : keeps x y -> Inv x -> InvW y -> Inv y.
+Proof. intros (K1 & K2 & K3) (_ & H4 & H5) Hw. split; [exact Hw|]. unfold p4, p5. rewrite K1, K2, K3. auto. Qed.
+
+Lemma echoMore_keeps x : keeps x (st_of (echoMore x)).
+Proof.
+  unfold echoMore.
+  unfold must at 1. destruct (is_sending SVirgin x); [|repeat split]. cbn [bind].
+  unfold must at 1. destruct (ad_pipe (ad x)); [|repeat split]. cbn [bind].
+  unfold must at 1. destruct (active (s_st (vs x))); [|repeat split]. cbn [bind].
+  unfold must at 1. match goal with |- context[if ?b then Ok x else Throw x] => destruct b end; [|repeat split]. cbn [bind].
+  set (r := if 0 <? vend x - s_off (vs x) then _ else Ok x).
+  assert (Hr : keeps x (st_of r)).
+  { subst r. destruct (0 <? vend x - s_off (vs x)); [|repeat split].
+    eapply keeps_trans; [|apply fr_keeps, virginConsume_fr]. repeat split. }
+  destruct r as [y|y]; cbn [bind st_of] in *; [|exact Hr].
+  destruct (end_reached_s y); [|exact Hr].
+  eapply keeps_trans; [exact Hr|]. pose proof (stopSending_facts true y) as (F1 & F2 & F3 & _). repeat split; assumption.
+Qed.
+
+Lemma startSending_keeps x : keeps x (st_of (startSending x)).
+Proof.
+  unfold startSending. cbv zeta.
+  set (x' := disableBypass true (disableRepeats x)).
+  assert (K : keeps x x') by (apply fr_keeps; frsolve). clearbody x'.
+  destruct (ad_header (ad x')) as [s|]; [|exact K].
+  assert (K2 : keeps x (sendAnswer (Fwd s) x')).
+  { eapply keeps_trans; [exact K|]. unfold sendAnswer. destruct (initiator (job x')); repeat split. }
+  destruct (is_sending SVirgin (sendAnswer (Fwd s) x')); [|exact K2].
+  eapply keeps_trans; [exact K2|apply echoMore_keeps].
+Qed.
+
+Lemma parseHeaders_spec : spec Inv parseHeaders Inv InvW.
+Proof.
+  intros x HI. unfold parseHeaders.
+  set (r1 := match parsing (st x) with PsIcapHeader => parseIcapHead x | _ => Ok x end).
+  assert (H1 : match r1 with Ok y => Inv y | Throw y => InvW y end).
+  { subst r1. destruct (parsing (st x)) eqn:E; try exact HI. apply parseIcapHead_spec. auto. }
+  destruct r1 as [y|y]; cbn [bind]; [|exact H1].
+  set (r2 := match parsing (st y) with PsHttpHeader => parseHttpHead y | _ => Ok y end).
+  assert (H2 : match r2 with Ok z => Inv z | Throw z => InvW z end).
+  { subst r2. destruct (parsing (st y)) eqn:E; try exact H1.
+    pose proof (parseHttpHead_spec y (conj H1 E)) as S. destruct (parseHttpHead y); [|exact S].
+    destruct S. apply InvN_Inv; assumption. }
+  destruct r2 as [z|z]; cbn [bind]; [|exact H2].
+  destruct (parsingHeaders z).
+  - unfold must. destruct (negb (comm_eof (io z))); [exact H2|apply H2].
+  - pose proof (startSending_spec z (Inv_InvW _ H2)) as S. pose proof (startSending_keeps z) as K.
+    destruct (startSending z); cbn [st_of] in K; [|exact S]. eapply keeps_Inv; eauto.
+Qed.
+
+Lemma readMore_fr x : fr x (readMore x).
+Proof. unfold readMore. brk; try apply fr_refl; frsolve. Qed.
+
+(* parseBody appends adapted bytes only, and only to a message whose head came from the ICAP reply *)
+Lemma parseBody_spec :
+  spec (fun x => Inv x /\ parsing (st x) = PsBody) parseBody Inv InvW.
+Proof.
+  intros x (HI & Hp). unfold parseBody.
+  assert (Hh : ad_header (ad x) = Some SrcAdapted) by (destruct HI as ((_ & _ & _ & H2) & _); apply H2, Hp).
+  unfold must at 1. destruct (ad_pipe (ad x)); [|apply HI]. cbn [bind].
+  destruct (parseChunks (readbuf (io x)) (ad_space x)) as [[d rb] s].
+  destruct (s =? 3); [apply HI|]. cbv zeta.
+  match goal with |- context[if 0 <? ad_buf (ad ?z) then _ else ?z] => set (x1 := z) end.
+  assert (H1 : Inv x1 /\ parsing (st x1) = PsBody /\ ad_header (ad x1) = Some SrcAdapted).
+  { split; [|split; [exact Hp|exact Hh]].
+    destruct HI as ((Hb & Ha & H1 & H2) & H4 & H5). unfold body_ok in Hb. rewrite Hh in Hb. destruct Hb as (Hb1 & Hb2).
+    split; [|split; [exact H4|exact H5]].
+    refine (conj _ (conj Ha (conj H1 H2))). unfold body_ok. cbn. rewrite Hh. split; [rewrite Hb1; reflexivity|exact Hb2]. }
+  clearbody x1.
+  set (x2 := if 0 <? ad_buf (ad x1) then disableBypass true (disableRepeats x1) else x1).
+  assert (H2 : Inv x2 /\ parsing (st x2) = PsBody /\ ad_header (ad x2) = Some SrcAdapted).
+  { subst x2. destruct (0 <? ad_buf (ad x1)); [|exact H1]. destruct H1 as (A & B & C).
+    split; [eapply fr_Inv; [|exact A]; frsolve|split; [exact B|exact C]]. }
+  clearbody x2. destruct H2 as (H2 & H2p & H2h).
+  destruct (s =? 1).
+  - pose proof (stopSending_InvW true x2 (Inv_InvW _ H2)) as Hs. pose proof (stopSending_facts true x2) as (F1 & F2 & F3 & _).
+    destruct (stopSending true x2) as [y|y]; cbn [bind st_of] in *; [|exact Hs].
+    assert (HyN : InvN y) by (split; [exact Hs|unfold NoVirgin; congruence]).
+    destruct (icap_tr (io y)).
+    + apply InvN_Inv; [|unfold p4; cbn; discriminate].
+      destruct HyN as ((Hb & Ha & H1' & H2') & N). split; [|exact N]. refine (conj Hb (conj Ha (conj H1' _))). unfold p2; cbn; discriminate.
+    + pose proof (stopParsing_InvW true y Hs) as Hs2. pose proof (stopParsing_facts true y) as (Ga & _ & _ & _ & Gp).
+      destruct (stopParsing true y) as [z|z]; cbn [st_of] in *; [|exact Hs2].
+      apply InvN_Inv; [split; [exact Hs2|unfold NoVirgin; rewrite Ga; congruence]|]. unfold p4. rewrite Gp. discriminate.
+  - unfold must. destruct (negb (comm_eof (io x2))); cbn [bind]; [|apply H2].
+    eapply fr_Inv; [apply readMore_fr|exact H2].
+Qed.
+
+Lemma parseIcapTrailer_spec : spec Inv parseIcapTrailer Inv InvW.
+Proof.
+  intros x HI. unfold parseIcapTrailer.
+  assert (Hnm : match need_more x with Ok y => Inv y | Throw y => InvW y end).
+  { pose proof (need_more_same x) as E. destruct (need_more x); subst; [exact HI|apply HI]. }
+  destruct (front (readbuf (io x))) as [| |t r]; [exact Hnm|exact Hnm|].
+  destruct t; try apply HI.
+  assert (H' : Inv (with_readbuf r x)).
+  { destruct HI as ((Hb & Ha & H1 & H2) & H4 & H5). exact (conj (conj Hb (conj Ha (conj H1 H2))) (conj H4 H5)). }
+  pose proof (stopParsing_InvW true _ (Inv_InvW _ H')) as Hs. pose proof (stopParsing_facts true (with_readbuf r x)) as (Ga & _ & _ & _ & Gp).
+  destruct (stopParsing true (with_readbuf r x)) as [z|z]; cbn [st_of] in *; [|exact Hs].
+  split; [exact Hs|split].
+  - unfold p4. rewrite Gp. discriminate.
+  - intros _. exact Gp.
+Qed.
+
+Lemma parseMore_spec : spec Inv parseMore Inv InvW.
+Proof.
+  intros x HI. unfold parseMore.
+  set (r1 := if parsingHeaders x then parseHeaders x else Ok x).
+  assert (H1 : match r1 with Ok y => Inv y | Throw y => InvW y end).
+  { subst r1. destruct (parsingHeaders x); [apply parseHeaders_spec, HI|exact HI]. }
+  destruct r1 as [y|y]; cbn [bind]; [|exact H1].
+  set (r2 := match parsing (st y) with PsBody => parseBody y | _ => Ok y end).
+  assert (H2 : match r2 with Ok z => Inv z | Throw z => InvW z end).
+  { subst r2. destruct (parsing (st y)) eqn:E; try exact H1. apply parseBody_spec. auto. }
+  destruct r2 as [z|z]; cbn [bind]; [|exact H2].
+  destruct (parsing (st z)); try exact H2. apply parseIcapTrailer_spec, H2.
+Qed.
+
+Lemma handleCommRead_spec : spec Inv handleCommRead Inv InvW.
+Proof.
+  intros x HI. unfold handleCommRead. unfold must at 1. destruct (negb (doneParsing x)); cbn [bind]; [|apply HI].
+  pose proof (parseMore_spec x HI) as S. destruct (parseMore x) as [y|y]; cbn [bind]; [|exact S].
+  eapply fr_Inv; [apply readMore_fr|exact S].
+Qed.
+
+(* ------------------------------------------------------------------ the invariant depends on few fields *)
+Definition same_core (x y : xs) : Prop :=
+  ad_header (ad y) = ad_header (ad x) /\ ad_in (ad y) = ad_in (ad x) /\ o_body (out y) = o_body (out x) /\
+  o_answer (out y) = o_answer (out x) /\ s_off (vs y) = s_off (vs x) /\ vp_data (vs y) = vp_data (vs x) /\
+  parsing (st y) = parsing (st x) /\ sending (st y) = sending (st x) /\ icap_h (io y) = icap_h (io x).
+Lemma InvW_ext x y : same_core x y -> InvW x -> InvW y.
+Proof.
+  unfold same_core, InvW, body_ok, answer_ok, p1, p2. intros (E1 & E2 & E3 & E4 & E5 & E6 & E7 & E8 & E9).
+  rewrite E1, E2, E3, E4, E5, E6, E7, E8. auto.
+Qed.
+Lemma Inv_ext x y : same_core x y -> Inv x -> Inv y.
+Proof.
+  intros C (H & H4 & H5). split; [eapply InvW_ext; eauto|].
+  destruct C as (E1 & _ & _ & _ & _ & _ & E7 & _ & E9). unfold p4, p5. rewrite E1, E7, E9. auto.
+Qed.
+Ltac core := unfold same_core; cbn; repeat split; reflexivity.
+
+Lemma bypassFailure_spec : spec InvW bypassFailure Inv InvW.
+Proof.
+  intros x H. unfold bypassFailure. cbv zeta.
+  assert (H0 : InvW (disableBypass false x)) by (eapply InvW_ext; [|exact H]; core).
+  set (x0 := disableBypass false x) in *. clearbody x0.
+  unfold must at 1. destruct (negb (retriable (fl x0))); cbn [bind]; [|exact H0].
+  pose proof (prepEchoing_spec x0 H0) as P. destruct (prepEchoing x0) as [y|y]; cbn [bind]; [|exact P].
+  destruct P as (Py & Pyh).
+  pose proof (startSending_spec y Py) as S. pose proof (startSending_keeps y) as K.
+  destruct (startSending y) as [z|z]; cbn [bind st_of] in *; [|exact S].
+  pose proof (stopParsing_InvW false z S) as Q. pose proof (stopParsing_facts false z) as (Qa & _ & _ & _ & Qp).
+  destruct (stopParsing false z) as [w|w]; cbn [bind st_of] in *; [|exact Q].
+  pose proof (stopWriting_fr true w) as F.
+  assert (Hw : Inv w).
+  { split; [exact Q|split]; [unfold p4; rewrite Qp; discriminate|intros _; exact Qp]. }
+  destruct (stopWriting true w) as [v|v]; cbn [bind st_of] in *; [|eapply fr_InvW; [exact F|exact Q]].
+  assert (Hv : Inv v) by (eapply fr_Inv; eauto).
+  destruct (conn (io v)); [|exact Hv]. eapply Inv_ext; [|exact Hv]. core.
+Qed.
+
+Lemma callException_spec x : InvW x -> InvW (callException x) /\ (stop_req (job (callException x)) = true \/ Inv (callException x)).
+Proof.
+  intros H. unfold callException.
+  destruct (negb (can_bypass (fl x)) || retriable (fl x)).
+  - split; [eapply InvW_ext; [|exact H]; core|left; reflexivity].
+  - pose proof (bypassFailure_spec x H) as B. destruct (bypassFailure x) as [y|y].
+    + split; [apply B|right; exact B].
+    + split; [eapply InvW_ext; [|exact B]; core|left; reflexivity].
+Qed.
+
+Lemma swanSong_InvW x : InvW x -> InvW (swanSong x) /\ stopped (job (swanSong x)) = true.
+Proof.
+  intros H. unfold swanSong. cbv zeta.
+  pose proof (stopWriting_fr false x) as F. set (x1 := st_of (stopWriting false x)) in *.
+  assert (H1 : InvW x1) by (eapply fr_InvW; eauto). clearbody x1.
+  pose proof (stopSending_InvW false x1 H1) as H2. set (x2 := st_of (stopSending false x1)) in *. clearbody x2.
+  split; [|destruct (initiator _); reflexivity].
+  set (x3 := with_readbuf [] (with_writer false (with_reader false (with_conn false x2)))).
+  assert (H3 : InvW x3) by (eapply InvW_ext; [|exact H2]; core). clearbody x3.
+  destruct (initiator (job x3)).
+  - destruct H3 as (Hb & Ha & H1' & H2'). refine (conj Hb (conj _ (conj H1' H2'))).
+    unfold answer_ok. cbn. intros s E. discriminate.
+  - eapply InvW_ext; [|exact H3]. core.
+Qed.
+
+(* the invariant between asynchronous calls; a finished job keeps only the part about the delivered message *)
+Definition B (x : xs) : Prop := InvW x /\ (stopped (job x) = true \/ (p4 x /\ p5 x)).
+Lemma B_of_Inv x : Inv x -> B x.
+Proof. intros (H & H45). split; [exact H|right; exact H45]. Qed.
+
+Lemma finish_B x : InvW x -> (stop_req (job x) = true \/ Inv x) -> B (finish x).
+Proof.
+  intros H HS. unfold finish. cbv zeta.
+  match goal with |- B (if _ then swanSong ?z else ?z) => set (x1 := z) end.
+  assert (H1 : InvW x1 /\ (stop_req (job x1) = true \/ Inv x1)).
+  { subst x1. match goal with |- context[if ?c then _ else _] => destruct c end; [|auto].
+    split; [eapply InvW_ext; [|exact H]; core|]. destruct HS as [HS|HS]; [left; exact HS|right; eapply Inv_ext; [|exact HS]; core]. }
+  clearbody x1. destruct H1 as (H1 & HS1).
+  destruct (stop_req (job x1) || doneAll x1) eqn:E.
+  - pose proof (swanSong_InvW x1 H1) as (S1 & S2). split; [exact S1|left; exact S2].
+  - destruct HS1 as [HS1|HS1]; [rewrite HS1 in E; discriminate|apply B_of_Inv, HS1].
+Qed.
+
+(* ------------------------------------------------------------------ every asynchronous call *)
+Lemma spec_of_frames f x : frames f -> Inv x -> match f x with Ok y => Inv y | Throw y => InvW y end.
+Proof. intros Hf HI. specialize (Hf x). destruct (f x); cbn [st_of] in Hf; [eapply fr_Inv; eauto|eapply fr_InvW; [exact Hf|apply HI]]. Qed.
+
+Lemma start_fr : frames start.
+Proof. intros x. unfold start. cbv zeta. cbn [st_of]. unfold checkConsuming. brk; frsolve. Qed.
+Lemma startShoveling_fr : frames startShoveling.
+Proof.
+  intros x. unfold startShoveling.
+  pose proof (readMore_fr x) as F1. generalize dependent (readMore x). intros x1 F1. cbv zeta.
+  set (x2 := if pv_enabled x1 && negb (vb_expected (cfg x1)) then with_pv_st PvIeof x1 else x1).
+  assert (F2 : fr x1 x2) by (subst x2; destruct (pv_enabled x1 && negb (vb_expected (cfg x1))); [frsolve|apply fr_refl]).
+  clearbody x2.
+  set (x3 := with_allow204post (canBackupEverything x2) x2). assert (F3 : fr x2 x3) by frsolve. clearbody x3.
+  eapply fr_trans; [exact F1|]. eapply fr_trans; [exact F2|]. eapply fr_trans; [exact F3|].
+  frauto.
+Qed.
+
+Lemma vput_Inv bs x : Inv x -> Inv (vput bs x).
+Proof.
+  intros ((Hb & Ha & H1 & H2) & H4 & H5). unfold vput. cbv zeta.
+  split; [|exact (conj H4 H5)]. refine (conj _ (conj Ha (conj H1 H2))).
+  unfold body_ok in *. cbn. destruct (ad_header (ad x)) as [[|]|]; auto.
+  destruct Hb as (Hb1 & Hb2 & Hb3). repeat split; auto.
+  - rewrite takeN_app_le; assumption.
+  - rewrite lenN_app. lia.
+Qed.
+
+Lemma noteVirgin_spec : spec Inv noteVirgin Inv InvW.
+Proof.
+  intros x HI. unfold noteVirgin.
+  pose proof (spec_of_frames writeMore x writeMore_fr HI) as W. destruct (writeMore x) as [y|y]; cbn [bind]; [|exact W].
+  destruct (is_sending SVirgin y); [|exact W].
+  pose proof (echoMore_spec y (Inv_InvW _ W)) as E. pose proof (echoMore_keeps y) as K.
+  destruct (echoMore y); cbn [st_of] in K; [eapply keeps_Inv; eauto|exact E].
+Qed.
+
+Lemma handler_spec e : spec Inv (handler e) Inv InvW.
+Proof.
+  intros x HI. destruct e; cbn [handler].
+  - destruct (is_writing WInit x); [apply spec_of_frames; [apply start_fr|exact HI]|exact HI].
+  - destruct (is_writing WConnect x && negb (conn (io x))); [|exact HI].
+    apply spec_of_frames; [apply startShoveling_fr|]. eapply Inv_ext; [|exact HI]. core.
+  - destruct (is_writing WConnect x && negb (conn (io x))); [apply HI|exact HI].
+  - destruct (writer (io x)); [apply spec_of_frames; [apply noteCommWrote_fr|exact HI]|exact HI].
+  - destruct (writer (io x)); [|exact HI]. cbv zeta.
+    destruct (ignore_lw (io (with_writer false x))); [eapply Inv_ext; [|exact HI]; core|eapply InvW_ext; [|apply HI]; core].
+  - destruct (vb_expected (cfg x) && producing x); [|exact HI]. cbv zeta.
+    pose proof (vput_Inv bs x HI) as V. destruct (vp_attached (vs (vput bs x))); [apply noteVirgin_spec, V|exact V].
+  - destruct (vb_expected (cfg x) && producing x); [|exact HI]. cbv zeta.
+    assert (V : Inv (with_vp_prod Ended x)) by (eapply Inv_ext; [|exact HI]; core).
+    destruct (vp_attached (vs (with_vp_prod Ended x))); [apply noteVirgin_spec, V|exact V].
+  - destruct (vb_expected (cfg x) && producing x); [|exact HI]. cbv zeta.
+    assert (V : Inv (with_vp_prod Aborted x)) by (eapply Inv_ext; [|exact HI]; core).
+    destruct (vp_attached (vs (with_vp_prod Aborted x))); [apply noteVirgin_spec, V|exact V].
+  - destruct (reader (io x)); [|exact HI]. apply handleCommRead_spec. eapply Inv_ext; [|exact HI]. core.
+  - destruct (reader (io x)); [|exact HI]. apply handleCommRead_spec. eapply Inv_ext; [|exact HI]. core.
+  - destruct (conn (io x)); [|exact HI]. eapply Inv_ext; [|exact HI]. core.
+  - destruct (conn (io x) && (reader (io x) || writer (io x))); [|exact HI]. eapply InvW_ext; [|apply HI]. core.
+  - destruct (ad_pipe (ad x)); [|exact HI]. cbv zeta.
+    set (x' := with_ad_buf _ x). assert (H' : Inv x') by (eapply Inv_ext; [|exact HI]; core). clearbody x'.
+    destruct (sending (st x')); [exact H'| | |apply H'].
+    + pose proof (echoMore_spec x' (Inv_InvW _ H')) as E. pose proof (echoMore_keeps x') as K.
+      destruct (echoMore x'); cbn [st_of] in K; [eapply keeps_Inv; eauto|exact E].
+    + apply parseMore_spec, H'.
+  - destruct (ad_pipe (ad x)); [|exact HI]. eapply Inv_ext; [|exact HI]. core.
+  - destruct (initiator (job x)); [|exact HI]. eapply Inv_ext; [|exact HI]. core.
+Qed.
+
+Lemma init_B c : B (init c).
+Proof.
+  apply B_of_Inv. unfold Inv, InvW, body_ok, answer_ok, p1, p2, p4, p5. cbn.
+  repeat split; try discriminate; try reflexivity.
+Qed.
+
+Lemma step_B x e : B x -> B (step x e).
+Proof.
+  intros (H & HS). unfold step. destruct (stopped (job x)) eqn:Es; [split; [exact H|left; exact Es]|].
+  assert (HI : Inv x) by (destruct HS as [HS|HS]; [congruence|exact (conj H HS)]).
+  pose proof (handler_spec e x HI) as S. destruct (handler e x) as [y|y].
+  - apply finish_B; [apply S|right; exact S].
+  - pose proof (callException_spec y S) as (C1 & C2). apply finish_B; assumption.
+Qed.
+
+Lemma run_B x evs : B x -> B (run x evs).
+Proof. revert x; induction evs as [|e evs IH]; intros x H; cbn [run fold_left]; [exact H|]. apply IH, step_B, H. Qed.
+
+(* ------------------------------------------------------------------ the theorems *)
+Theorem no_mixture c evs :
+  let x := run (init c) evs in
+  match ad_header (ad x) with
+  | None => o_body (out x) = []
+  | Some SrcVirgin => o_body (out x) = takeN (s_off (vs x)) (vp_data (vs x)) /\ ad_in (ad x) = []
+  | Some SrcAdapted => o_body (out x) = ad_in (ad x)
+  end /\
+  (forall s, o_answer (out x) = Some (Fwd s) -> ad_header (ad x) = Some s).
+Proof.
+  cbv zeta. pose proof (run_B (init c) evs (init_B c)) as ((Hb & Ha & _) & _). split; [|exact Ha].
+  unfold body_ok in Hb. destruct (ad_header _) as [[|]|]; intuition.
+Qed.
+
+Theorem virgin_answer_pure c evs :
+  let x := run (init c) evs in
+  o_answer (out x) = Some (Fwd SrcVirgin) ->
+  ad_in (ad x) = [] /\ o_body (out x) = takeN (s_off (vs x)) (vp_data (vs x)).
+Proof.
+  cbv zeta. intros E. pose proof (no_mixture c evs) as (Hb & Ha). cbv zeta in *. apply Ha in E. rewrite E in Hb. intuition.
+Qed.
+
+Theorem adapted_answer_pure c evs :
+  let x := run (init c) evs in
+  o_answer (out x) = Some (Fwd SrcAdapted) ->
+  o_body (out x) = ad_in (ad x) /\ s_off (vs x) = 0.
+Proof.
+  cbv zeta. intros E. pose proof (run_B (init c) evs (init_B c)) as ((Hb & Ha & _) & _).
+  apply Ha in E. unfold body_ok in Hb. rewrite E in Hb. exact Hb.
+Qed.
+
+(* what reaches the HTTP side (Iterator + ClientHttpRequest / Client) *)
+Theorem deliver_trichotomy c evs :
+  let x := run (init c) evs in
+  match deliver x with
+  | DMessage SrcVirgin _ body _ => body = takeN (s_off (vs x)) (vp_data (vs x)) /\ ad_in (ad x) = []
+  | DMessage SrcAdapted _ body _ => body = ad_in (ad x) /\ s_off (vs x) = 0
+  | DVirginUntouched =>
+    c_reqmod (cfg x) = true /\ c_bypass (cfg x) = true /\ (vb_expected (cfg x) = false \/ vp_consumed (vs x) = 0) /\
+    (forall s, o_answer (out x) <> Some (Fwd s))
+  | DError => forall s, o_answer (out x) <> Some (Fwd s)
+  end.
+Proof.
+  cbv zeta. set (x := run (init c) evs).
+  pose proof (virgin_answer_pure c evs) as HV. pose proof (adapted_answer_pure c evs) as HA. cbv zeta in HV, HA. fold x in HV, HA.
+  unfold deliver. destruct (o_answer (out x)) as [[[|]|]|] eqn:E.
+  - destruct (HV eq_refl). split; auto.
+  - apply HA; reflexivity.
+  - destruct (c_reqmod (cfg x)); [|intros s; discriminate].
+    destruct (c_bypass (cfg x)); cbn [andb]; [|intros s; discriminate].
+    destruct (vb_expected (cfg x)); cbn [negb orb andb].
+    + destruct (N.eqb_spec (vp_consumed (vs x)) 0) as [Z|Z]; cbn [andb negb].
+      * rewrite Z. cbn. repeat split; auto; intros s; discriminate.
+      * intros s; discriminate.
+    + repeat split; auto; intros s; discriminate.
+  - destruct (c_reqmod (cfg x)); [|intros s; discriminate].
+    destruct (c_bypass (cfg x)); cbn [andb]; [|intros s; discriminate].
+    destruct (vb_expected (cfg x)); cbn [negb orb andb].
+    + destruct (N.eqb_spec (vp_consumed (vs x)) 0) as [Z|Z]; cbn [andb negb].
+      * rewrite Z. cbn. repeat split; auto; intros s; discriminate.
+      * intros s; discriminate.
+    + repeat split; auto; intros s; discriminate.
+Qed.
+
+(* ------------------------------------------------------------------ the bypass clause *)
+Definition cfg_demo (bp : bool) : cfg_t := mk_cfg bp false (Some 4) true true 10.
+Definition vbody_demo : bytes := [1;2;3;4;5;6;7;8;9;10].
+(* preview written, then the server's decisive reply *)
+Definition evs_demo (reply : list event) : list event :=
+  [EvStart; EvVData vbody_demo; EvVEnd; EvConnected; EvWrote; EvWrote] ++ reply.
+
+(* refuted: bypass=1, the ICAP server answers 500 inside the preview, no adapted content exists, and the client gets an error *)
+Lemma bypass_refuted :
+  exists c evs, c_bypass c = true /\
+    let x := run (init c) evs in
+    ad_header (ad x) <> Some SrcAdapted /\ ad_in (ad x) = [] /\ stopped (job x) = true /\
+    o_answer (out x) = Some AnsError /\ deliver x = DError.
+Proof.
+  exists (cfg_demo true), (evs_demo [EvRead [TIcapHead 500 HNone false false]]).
+  split; [reflexivity|]. vm_compute. repeat split. discriminate.
+Qed.
+
+(* the same failure as a closed connection IS bypassed, and without bypass it is an error *)
+Lemma bypass_close_example :
+  let x := run (init (cfg_demo true)) (evs_demo [EvEof]) in
+  deliver x = DMessage SrcVirgin true vbody_demo true.
+Proof. vm_compute. reflexivity. Qed.
+Lemma nobypass_close_example :
+  let x := run (init (cfg_demo false)) (evs_demo [EvEof]) in deliver x = DError.
+Proof. vm_compute. reflexivity. Qed.
+Lemma adapted_example :
+  let x := run (init (cfg_demo false))
+               (evs_demo [EvRead [TIcapHead 200 HRes true false; THttpHead; TChunk [65;66]]; EvRead [TChunk [67]; TLast]]) in
+  deliver x = DMessage SrcAdapted true [65;66;67] true.
+Proof. vm_compute. reflexivity. Qed.
+Lemma preview204_example :
+  let x := run (init (cfg_demo false)) (evs_demo [EvRead [TIcapHead 204 HNone false false]]) in
+  deliver x = DMessage SrcVirgin true vbody_demo true.
+Proof. vm_compute. reflexivity. Qed.
+
+(* ------------------------------------------------------------------ bypass, the provable part *)
+Definition akeep (x y : xs) : Prop := o_answer (out y) = o_answer (out x) /\ initiator (job y) = initiator (job x).
+Lemma fr_akeep x y : fr x y -> akeep x y.
+Proof. intros (_ & Fo & Fj & _). unfold akeep. rewrite Fo, Fj. auto. Qed.
+Lemma akeep_trans x y z : akeep x y -> akeep y z -> akeep x z.
+Proof. unfold akeep; intuition congruence. Qed.
+Lemma stopSending_akeep n x : akeep x (st_of (stopSending n x)).
+Proof. unfold stopSending, checkConsuming, must, bind, akeep. brk; cbn; auto. Qed.
+Lemma echoMore_akeep x : akeep x (st_of (echoMore x)).
+Proof.
+  unfold echoMore.
+  unfold must at 1. destruct (is_sending SVirgin x); [|split; reflexivity]. cbn [bind].
+  unfold must at 1. destruct (ad_pipe (ad x)); [|split; reflexivity]. cbn [bind].
+  unfold must at 1. destruct (active (s_st (vs x))); [|split; reflexivity]. cbn [bind].
+  unfold must at 1. match goal with |- context[if ?b then Ok x else Throw x] => destruct b end; [|split; reflexivity]. cbn [bind].
+  set (r := if 0 <? vend x - s_off (vs x) then _ else Ok x).
+  assert (Hr : akeep x (st_of r)).
+  { subst r. destruct (0 <? vend x - s_off (vs x)); [|split; reflexivity].
+    eapply akeep_trans; [|apply fr_akeep, virginConsume_fr]. split; reflexivity. }
+  destruct r as [y|y]; cbn [bind st_of] in *; [|exact Hr].
+  destruct (end_reached_s y); [|exact Hr].
+  eapply akeep_trans; [exact Hr|apply stopSending_akeep].
+Qed.
+
+Lemma prepEchoing_ok x :
+  ad_header (ad x) = None -> ad_pipe (ad x) = false ->
+  (vb_expected (cfg x) = true ->
+     (active (s_st (vs x)) = true \/ (is_disabled (s_st (vs x)) = false /\ s_off (vs x) = 0)) /\ o_end (out x) = None) ->
+  exists y, prepEchoing x = Ok y /\ akeep x y.
+Proof.
+  intros Hh Hp Hb. unfold prepEchoing. cbv zeta.
+  unfold disableBypass, disableRepeats. cbn [ad with_protect_group with_can_bypass with_repeatable set_fl ad_header].
+  rewrite Hh. unfold must at 1. cbn [bind].
+  match goal with |- context[vb_expected (cfg ?z)] => change (vb_expected (cfg z)) with (vb_expected (cfg x)) end.
+  destruct (vb_expected (cfg x)) eqn:Ev.
+  - destruct (Hb eq_refl) as (Hs & He).
+    match goal with |- context[active (s_st (vs ?z))] => change (s_st (vs z)) with (s_st (vs x)); change (s_off (vs z)) with (s_off (vs x)) end.
+    destruct Hs as [Hs|(Hs1 & Hs2)].
+    + rewrite Hs. cbn [bind]. unfold makeAdaptedBodyPipe, checkConsuming, must, bind.
+      brk; cbn in *; try congruence; eexists; (split; [reflexivity|split; reflexivity]).
+    + destruct (active (s_st (vs x))).
+      * cbn [bind]. unfold makeAdaptedBodyPipe, checkConsuming, must, bind.
+        brk; cbn in *; try congruence; eexists; (split; [reflexivity|split; reflexivity]).
+      * rewrite Hs1, Hs2. cbn [negb andb N.eqb must bind]. unfold makeAdaptedBodyPipe, checkConsuming, must, bind.
+        brk; cbn in *; try congruence; eexists; (split; [reflexivity|split; reflexivity]).
+  - unfold stopSending, checkConsuming, must, bind. brk; cbn in *; try congruence; eexists; (split; [reflexivity|split; reflexivity]).
+Qed.
+
+(* With bypass enabled, an exception thrown while the virgin body backup is still usable and no adapted head exists
+   makes the transaction forward the virgin message. *)
+Theorem bypass_partial x :
+  can_bypass (fl x) = true -> retriable (fl x) = false ->
+  ad_header (ad x) = None -> ad_pipe (ad x) = false -> initiator (job x) = true ->
+  (vb_expected (cfg x) = true ->
+     (active (s_st (vs x)) = true \/ (is_disabled (s_st (vs x)) = false /\ s_off (vs x) = 0)) /\ o_end (out x) = None) ->
+  o_answer (out (callException x)) = Some (Fwd SrcVirgin).
+Proof.
+  intros Hc Hr Hh Hp Hi Hb. unfold callException. rewrite Hc, Hr. cbn [negb orb].
+  unfold bypassFailure. cbv zeta.
+  set (x0 := disableBypass false x).
+  assert (E0 : retriable (fl x0) = false) by exact Hr.
+  unfold must at 1. rewrite E0. cbn [negb bind].
+  destruct (prepEchoing_ok x0) as (y & Ey & Ky); [exact Hh|exact Hp|exact Hb|].
+  pose proof (prepEchoing_spec x0) as PS.
+  rewrite Ey. cbn [bind].
+  assert (Hyh : ad_header (ad y) = Some SrcVirgin).
+  { clear PS. revert Ey. unfold prepEchoing, makeAdaptedBodyPipe, stopSending, checkConsuming, must, bind, disableBypass, disableRepeats.
+    cbv zeta. intros Ey. revert Ey. brk; intros Ey; try discriminate; injection Ey as <-; reflexivity. }
+  assert (Hyi : initiator (job y) = true) by (destruct Ky as (_ & Ki); rewrite Ki; exact Hi).
+  (* startSending sends the answer, the rest keeps it *)
+  unfold startSending at 1. cbv zeta.
+  change (ad_header (ad (disableBypass true (disableRepeats y)))) with (ad_header (ad y)). rewrite Hyh.
+  unfold sendAnswer. change (initiator (job (disableBypass true (disableRepeats y)))) with (initiator (job y)). rewrite Hyi.
+  set (z := with_initiator false (with_o_answer (Some (Fwd SrcVirgin)) (disableBypass true (disableRepeats y)))).
+  assert (Hz : o_answer (out z) = Some (Fwd SrcVirgin)) by reflexivity.
+  set (r := if is_sending SVirgin z then echoMore z else Ok z).
+  assert (Hrr : o_answer (out (st_of r)) = Some (Fwd SrcVirgin)).
+  { subst r. destruct (is_sending SVirgin z); [|exact Hz]. destruct (echoMore_akeep z) as (A & _). rewrite A. exact Hz. }
+  clearbody r. destruct r as [w|w]; cbn [bind st_of] in *; [|exact Hrr].
+  pose proof (stopParsing_facts false w) as (_ & So & _).
+  destruct (stopParsing false w) as [v|v]; cbn [bind st_of] in *; [|cbn; rewrite So; exact Hrr].
+  pose proof (stopWriting_fr true v) as (_ & Fo & _).
+  destruct (stopWriting true v) as [u|u]; cbn [bind st_of] in *.
+  - destruct (conn (io u)); cbn; rewrite Fo, So; exact Hrr.
+  - cbn. rewrite Fo, So. exact Hrr.
+Qed.
